@@ -38,7 +38,7 @@ def run(tier):
             e = events[idx - 1]
             key = "C16|%s|%s|%s" % (e["src"], e["class"], e["hint"])
             c.violation(key, "configuration source '%s': %s (written %s -> outcome %s)" % (
-                e["src"], e["hint"], {k: v for k, v in e["w"].items() if v not in (-999, "absent", False, "ok")},
+                e["src"], e["hint"], {k: v for k, v in e["w"].items() if str(v) not in ("-999", "absent", "False", "ok")},
                 {k: v for k, v in e["o"].items() if k in ("running", "port", "batch_size", "fault_percentage", "num_workers", "status_interval", "health_check_port")}),
                 {"direction": tag, "event_index": idx, "event": e})
         if not bad:
